@@ -525,6 +525,7 @@ class FunctionDefinition:
         """
 
         args = [*args]
+        kwargs = {**kwargs}
 
         if self._self_arg is not _Unbound:
             args.insert(0, self._self_arg)
